@@ -726,7 +726,7 @@ func (ex *Exec) sharedAccess(fr *frame, addr ssa.Value) {
 	case *ssa.FieldAddr, *ssa.IndexAddr, *ssa.Global, *ssa.Parameter, *ssa.FreeVar, *ssa.Phi, *ssa.UnOp, *ssa.Call, *ssa.Extract:
 	default:
 	}
-	if !ex.cfg.Policy.PreemptIn(fr.fn) {
+	if !ex.preemptInStack(fr) {
 		return
 	}
 	ex.yield()
